@@ -345,6 +345,13 @@ def make_env():
     figdir = tempfile.mkdtemp(prefix="rtfmon-c18fig-", dir=arena.base)
     for n in ("col_a", "paged", "multi_a", "figure", "raising", "plain3"):
         docs[n] = S.build(c14.POOL[n], figdir)
+    # texts that no UTF-8 file can hold as they are: lone surrogates (os.fsdecode of an undecodable file name),
+    # next to ordinary non-ASCII - rtf_encode() returns pure ASCII for them and so the export must work
+    hard = {"kind": "table", "df": c14.tagged(3, 2), "body": {},
+            "title": {"text": "TT0 caf" + chr(0xE9) + " " + chr(0xDCE9) + chr(0xD800) + " " + chr(0x1F600)},
+            "footnote": {"text": "FN0 " + chr(0xDFFF), "as_table": False},
+            "page_footer": {"text": "PF0 " + chr(0xDC80)}}
+    docs["hardtext"] = S.build(hard, figdir)
     return arena, inj, trace, tap, docs
 
 
@@ -431,6 +438,8 @@ def run_shard(desc, ctx):
                 for t in ("absent", "present", "nested"):
                     ctx.count("stub_runs")
                     run_one(ctx, env, "rtf", rng.choice(["col_a", "multi_a", "figure"]), t, stem=rng.choice(STEMS))
+                    ctx.count("stub_runs")
+                    run_one(ctx, env, rng.choice(["rtf", "rtf", "docx", "html", "pdf"]), "hardtext", t)
     finally:
         close_env(env)
 
